@@ -16,6 +16,7 @@ satisfaction logic and successful execution (runtime).
 import facts as fm
 from facts import Terms, enum_switches, show, short, calls_in, leaves, TRANSPARENT_CALLS
 import vcc
+import flow
 
 POLICY = "simplicity::policy::ast::Policy"
 SER = "simplicity::policy::serialize::"
@@ -85,6 +86,16 @@ def run(ctx, rep):
                             rep.violation("C16.arms", key + ":arg%d" % k, "argument %d of serialize::%s derives from %s, expected the %s child"
                                           % (k, want, sorted(flds), fld), cs.where())
                             okk = False
+            # every successful way out of the arm goes through the fragment builder: an early `return Ok(..)` that hands a child's
+            # result on (e.g. when the left child of an `and` is unsatisfied) gives the node the root of a different program
+            if okk and calls:
+                avoid = {cs.bb for cs in calls} | flow.error_blocks(f)
+                reach = f.reachable(tgt, avoid=avoid) if tgt not in avoid else set()
+                esc = [bb for bb in reach if f.blocks[bb]["t"]["k"] == "return"]
+                if esc:
+                    rep.violation("C16.arms", key + ":bypass", "%s: the arm for %s can return successfully without calling serialize::%s: the fragment "
+                                  "would carry the root of a different program than Policy::cmr() computes" % (name, v, want), f.where())
+                    okk = False
             if okk:
                 rep.ok("C16.arms", key, "serialize::%s ×%d" % (want, len(calls)))
         for v in rest:
